@@ -337,62 +337,74 @@ func TestC01Block(t *testing.T) {
 
 // TestC01LargeDictionaries steers LowCardinality dictionaries to the key-width
 // boundaries and strings to the varint boundaries.
-func TestC01LargeDictionaries(t *testing.T) {
-	sizes := []int{254, 255, 256, 257}
-	if stats.Thorough() {
-		sizes = append(sizes, 65534, 65535, 65536, 65537)
-	}
+// largeDictKinds: LowCardinality kinds whose element type has more than 256 values.
+func largeDictKinds() []*gen.Kind {
 	lcKinds := []*gen.Kind{}
 	for _, k := range gen.Kinds {
 		if (k.Shape == "LowCardinality(X)" || k.Shape == "Array(LowCardinality(X))") && (k.T.Elem[0].Width >= 2 || k.T.Elem[0].K == ref.KString || k.T.Elem[0].K == ref.KLowCard) {
 			lcKinds = append(lcKinds, k)
 		}
 	}
+	return lcKinds
+}
+
+// drawLargeDict draws a LowCardinality column whose dictionary has one of the given sizes
+// (the key width changes at 256 and 65536 entries).
+func drawLargeDict(rt *rapid.T, lcKinds []*gen.Kind, sizes []int) (k *gen.Kind, rows []ref.Val, n int) {
+	k = lcKinds[rapid.IntRange(0, len(lcKinds)-1).Draw(rt, "kind")]
+	n = rapid.SampledFrom(sizes).Draw(rt, "distinct")
+	seed := rapid.Uint64().Draw(rt, "seed")
+	extra := rapid.IntRange(0, 20).Draw(rt, "repeats")
+	inner := k.T
+	for inner.K != ref.KLowCard {
+		inner = inner.Elem[0]
+	}
+	el := inner.Elem[0]
+	if el.K == ref.KFixed && el.Width == 2 && n > 65536 {
+		n = 65536
+	}
+	mk := func(i int) ref.Val {
+		if el.K == ref.KString {
+			return []byte(fmt.Sprintf("v%x-%d", seed&0xffff, i))
+		}
+		b := make([]byte, el.Width)
+		x := uint64(i)
+		if el.Name == "Date32" {
+			x = uint64(i - 20000) // stay inside the documented range
+		}
+		if strings.HasPrefix(el.Name, "Float") {
+			x = uint64(i) << 3 // distinct non-NaN bit patterns
+		}
+		for j := 0; j < el.Width && j < 8; j++ {
+			b[j] = byte(x >> (8 * j))
+		}
+		return b
+	}
+	flat := make([]ref.Val, 0, n+extra)
+	for i := 0; i < n; i++ {
+		flat = append(flat, mk(i))
+	}
+	for i := 0; i < extra; i++ {
+		flat = append(flat, mk(int(seed>>8)%n))
+	}
+	if k.T.K == ref.KArray {
+		// split flat into a few array rows
+		cut := len(flat) / 3
+		rows = []ref.Val{append([]ref.Val{}, flat[:cut]...), []ref.Val{}, append([]ref.Val{}, flat[cut:]...)}
+	} else {
+		rows = flat
+	}
+	return k, rows, n
+}
+
+func TestC01LargeDictionaries(t *testing.T) {
+	sizes := []int{254, 255, 256, 257}
+	if stats.Thorough() {
+		sizes = append(sizes, 65534, 65535, 65536, 65537)
+	}
+	lcKinds := largeDictKinds()
 	rapid.Check(t, func(rt *rapid.T) {
-		k := lcKinds[rapid.IntRange(0, len(lcKinds)-1).Draw(rt, "kind")]
-		n := rapid.SampledFrom(sizes).Draw(rt, "distinct")
-		seed := rapid.Uint64().Draw(rt, "seed")
-		extra := rapid.IntRange(0, 20).Draw(rt, "repeats")
-		inner := k.T
-		for inner.K != ref.KLowCard {
-			inner = inner.Elem[0]
-		}
-		el := inner.Elem[0]
-		if el.K == ref.KFixed && el.Width == 2 && n > 65536 {
-			n = 65536
-		}
-		mk := func(i int) ref.Val {
-			if el.K == ref.KString {
-				return []byte(fmt.Sprintf("v%x-%d", seed&0xffff, i))
-			}
-			b := make([]byte, el.Width)
-			x := uint64(i)
-			if el.Name == "Date32" {
-				x = uint64(i - 20000) // stay inside the documented range
-			}
-			if strings.HasPrefix(el.Name, "Float") {
-				x = uint64(i) << 3 // distinct non-NaN bit patterns
-			}
-			for j := 0; j < el.Width && j < 8; j++ {
-				b[j] = byte(x >> (8 * j))
-			}
-			return b
-		}
-		var rows []ref.Val
-		flat := make([]ref.Val, 0, n+extra)
-		for i := 0; i < n; i++ {
-			flat = append(flat, mk(i))
-		}
-		for i := 0; i < extra; i++ {
-			flat = append(flat, mk(int(seed>>8)%n))
-		}
-		if k.T.K == ref.KArray {
-			// split flat into a few array rows
-			cut := len(flat) / 3
-			rows = []ref.Val{append([]ref.Val{}, flat[:cut]...), []ref.Val{}, append([]ref.Val{}, flat[cut:]...)}
-		} else {
-			rows = flat
-		}
+		k, rows, n := drawLargeDict(rt, lcKinds, sizes)
 		c := c01case{cols: []colSpec{{Name: "lc", Kind: k, Rows: rows}}, rows: len(rows),
 			rev: rapid.SampledFrom(blockRevs).Draw(rt, "rev"), info: ref.BlockInfo{BucketNum: -1}, bulk: rapid.Bool().Draw(rt, "bulk")}
 		checkC01(rt, c)
